@@ -11,6 +11,7 @@ package main
 import (
 	"crypto/sha1"
 	"fmt"
+	"os"
 	"strings"
 
 	"github.com/SAP/go-dblib/vrt"
@@ -95,13 +96,13 @@ func judge(c Case, obs []rx.RoundObs, o rx.Obs) (string, string) {
 			_ = prev
 		}
 		if ri >= len(obs) {
-			return "C03|round-not-completed|"+rd.Resp+"|"+hist, fmt.Sprintf("%+v: round %d did not complete: %s %s", c.Rounds, ri, o.Failure, o.Setup)
+			return "C03|round-not-completed|" + rd.Resp + "|" + hist, fmt.Sprintf("%+v: round %d did not complete: %s %s", c.Rounds, ri, o.Failure, o.Setup)
 		}
 		ro := obs[ri]
 		want, _ := expectedSeen(rd)
 		ctxt := fmt.Sprintf("round %d of %+v", ri, c.Rounds)
 		if strings.Contains(ro.Ret, "ctx deadline") || strings.Contains(ro.Ret, "context deadline") {
-			return "C03|no-final-done|"+rd.Resp+"|"+hist, fmt.Sprintf("%s: the consumer never obtained a final DONE (its context expired); saw %v; call returned %q", ctxt, ro.Seen, ro.Ret)
+			return "C03|no-final-done|" + rd.Resp + "|" + hist, fmt.Sprintf("%s: the consumer never obtained a final DONE (its context expired); saw %v; call returned %q", ctxt, ro.Seen, ro.Ret)
 		}
 		if strings.Join(ro.Seen, "\n") != strings.Join(want, "\n") {
 			k := 0
@@ -115,27 +116,26 @@ func judge(c Case, obs []rx.RoundObs, o rx.Obs) (string, string) {
 			case len(ro.Seen) < len(want) && k == len(ro.Seen):
 				kind = "missing-package"
 			}
-			return "C03|"+kind+"|"+rd.Beh+"|"+hist, fmt.Sprintf("%s: consumer saw %d packages, expected %d; first difference at %d: got %s want %s\nall seen: %v\nreturn: %s", ctxt, len(ro.Seen), len(want), k, at(ro.Seen, k), at(want, k), ro.Seen, ro.Ret)
+			return "C03|" + kind + "|" + rd.Beh + "|" + hist, fmt.Sprintf("%s: consumer saw %d packages, expected %d; first difference at %d: got %s want %s\nall seen: %v\nreturn: %s", ctxt, len(ro.Seen), len(want), k, at(ro.Seen, k), at(want, k), ro.Seen, ro.Ret)
 		}
 		switch rd.Beh {
 		case "nil-callback":
 			// the statement fixes what is consumed, not the value a nil callback returns
 			if ro.Ret != "io.EOF" && ro.Ret != "wrapped io.EOF" && ro.Ret != "returned nil,nil" {
-				return "C03|nil-callback-return|"+hist, fmt.Sprintf("%s: nil callback must consume the response and report io.EOF, returned %q", ctxt, ro.Ret)
+				return "C03|nil-callback-return|" + hist, fmt.Sprintf("%s: nil callback must consume the response and report io.EOF, returned %q", ctxt, ro.Ret)
 			}
 		case "until-err", "until-errw":
 			ne := nonEED(rx.Expected(corpus[rd.Resp]))
 			if rd.J < len(ne) && ro.Ret != "callback error" {
-				return "C03|callback-error-lost|"+hist, fmt.Sprintf("%s: callback failed at package %d, the call returned %q", ctxt, rd.J, ro.Ret)
+				return "C03|callback-error-lost|" + hist, fmt.Sprintf("%s: callback failed at package %d, the call returned %q", ctxt, rd.J, ro.Ret)
 			}
 		}
 		if ro.Leftover != "none" {
-			return "C03|leftover|"+rd.Beh+"|"+rd.Resp, fmt.Sprintf("%s: after the round a package is still queued (carried over to the next response): %s", ctxt, ro.Leftover)
+			return "C03|leftover|" + rd.Beh + "|" + rd.Resp, fmt.Sprintf("%s: after the round a package is still queued (carried over to the next response): %s", ctxt, ro.Leftover)
 		}
 	}
 	return "", ""
 }
-
 
 func check(c Case, obs []rx.RoundObs, o rx.Obs) bool {
 	if sig, det := judge(c, obs, o); sig != "" {
@@ -240,7 +240,9 @@ func exploreSchedules(c Case, bound int) {
 
 var firstRound = map[string]rx.RoundObs{}
 
-func key(r rx.Round) string { return fmt.Sprintf("%s|%d|%s|%d", r.Resp, r.Pack, r.Beh, r.J) }
+func key(r rx.Round) string {
+	return fmt.Sprintf("%s|%d|%s|%d|%v", r.Resp, r.Pack, r.Beh, r.J, r.NoWait)
+}
 
 func main() {
 	h = hlib.Init("C03")
@@ -262,7 +264,15 @@ func main() {
 				h.Violate(sig+"|under-schedule", det, rc)
 			}
 		} else {
-			run(rc)
+			for i, ro := range run(rc) {
+				fmt.Printf("replay: round %d: seen %v; returned %q; leftover %q\n", i, ro.Seen, ro.Ret, ro.Leftover)
+			}
+			if os.Getenv("VERIF_TRACE") != "" {
+				_, _, x := rx.RunRounds(vrt.Config{TraceOps: true}, corpus, rc.Rounds, rx.HookCfg{})
+				for _, l := range x.Trace {
+					fmt.Println("trace:", l)
+				}
+			}
 		}
 		h.ReplayReport()
 	}
@@ -283,6 +293,23 @@ func main() {
 						continue // every j for two packetisations, first/last j for the others
 					}
 					all = append(all, rx.Round{Resp: s, Pack: pack, Beh: b, J: j})
+				}
+			}
+		}
+	}
+	// the polling variant of NextPackageUntil (wait=false), also against a consumer-paced server (pack 7):
+	// its later packets (cut inside the last package) are sent only once the client waits inside the
+	// library or has returned from its call
+	for _, s := range shapes {
+		ne := len(nonEED(rx.Expected(corpus[s])))
+		for _, pack := range []int{0, 2, 7} {
+			if pack > 0 && len(rx.CutsFor(corpus[s], 2)) == 0 {
+				continue
+			}
+			all = append(all, rx.Round{Resp: s, Pack: pack, Beh: "nil-callback", NoWait: true})
+			for j := 0; j < ne; j++ {
+				for _, b := range []string{"until-true", "until-eof", "until-err", "until-errw"} {
+					all = append(all, rx.Round{Resp: s, Pack: pack, Beh: b, J: j, NoWait: true})
 				}
 			}
 		}
